@@ -71,6 +71,12 @@ func DrawMRZ(t *rapid.T) MRZCase {
 	default:
 		docNo = drawStr(t, mrzAlnum, 1, 9, "docno")
 	}
+	// a document number may contain a filler where the printed number has a space or punctuation
+	// (not inside the continuation of an extended number, which ends at the first filler)
+	if len(docNo) >= 3 && len(docNo) <= 9 && rapid.IntRange(0, 5).Draw(t, "docno-inner-filler") == 0 {
+		i := rapid.IntRange(1, len(docNo)-2).Draw(t, "docno-filler-pos")
+		docNo = docNo[:i] + "<" + docNo[i+1:]
+	}
 	f := refmrz.Fields{
 		Layout:      layout,
 		DocCode:     rapid.SampledFrom([]string{"P", "I", "ID", "PM", "A", "C", "V"}).Draw(t, "doccode"),
